@@ -13,5 +13,6 @@ PROPS = {
     "C05": {"level": "exploration", "parts": [part("agg", "stack", "TestVerifC05")]},
     "C13": {"level": "exploration", "parts": [part("order", "stack", "TestVerifC13")]},
     "C07": {"level": "model_checking", "parts": [part("bfs", "stack", "TestVerifC07")]},
+    "C08": {"level": "exploration", "parts": [part("race", "stack", "TestVerifC08")]},
     "C12": {"level": "exploration", "parts": [part("agg", "stack", "TestVerifC12")]},
 }
